@@ -126,6 +126,7 @@ func ordindObligations(cc *checkCtx, w *World) *extraResult {
 // newScratchVC prepares a FuncVC for checking a fragment of fi (no contracts involved).
 func newScratchVC(w *World, fi *FuncInfo) (*FuncVC, *State) {
 	th := newTheory(w.Externs)
+	th.installConstPointees(w)
 	fv := &FuncVC{w: w, fi: fi, th: th, info: fi.Pkg.TypesInfo, counters: map[string]int{}, heapSort: map[string]Sort{},
 		usedExterns: map[string]bool{}, unknownCalls: map[string]bool{}, mode: "full", calledContracts: map[string]bool{},
 		freshRefs: map[string]bool{}, loopDescCount: map[string]int{}}
